@@ -193,6 +193,22 @@ Example C08_multiset_nonvacuous :
                  ([(s_ "k", VStr (s_ "a")); (s_ "n", VInt 5)], 3%nat)]).
 Proof. vm_compute. reflexivity. Qed.
 
+(* the hypotheses of C08_multiset_hive are jointly satisfiable: on the closed instance the frame of the example
+   above is admissible (frame_ok ... Pv_hive), so the theorem applies to it *)
+Example C08_multiset_hive_hypotheses_hold :
+  frame_ok E0 E0 E0 nat [s_ "k"; s_ "n"]
+    (Pv_hive E0 E0 E0 (fun f => match f with end) (fun _ _ => None) (fun t => match t with end) (fun t => match t with end)
+             (fun _ _ => None) (fun _ => None) [(s_ "k", KStr); (s_ "n", KInt true 64)])
+    (concat [[([Some (VStr (s_ "a")); Some (VInt 5)], 0%nat); ([Some (VStr (s_ "2")); None], 1%nat)];
+             [([Some (VStr (s_ "a")); Some (VInt (-7))], 2%nat); ([Some (VStr (s_ "a")); Some (VInt 5)], 3%nat)]]).
+Proof.
+  intros r Hin Hn. cbn [concat app] in Hin.
+  repeat (destruct Hin as [<-|Hin]; [|]); try contradiction; try discriminate Hn;
+    (constructor; [|constructor; [|constructor]]);
+    (eexists; split; [reflexivity|]; split; [exact I || reflexivity|]; split;
+      [unfold legal, clean; vm_compute; intuition discriminate|vm_compute; reflexivity]).
+Qed.
+
 Example C08_nonvacuous :
   parse_int (show_Z (-9223372036854775808)) = Some (-9223372036854775808)%Z /\
   split_on "/"%char (s_ "a=1/b=x/part.0.parquet") = [s_ "a=1"; s_ "b=x"; s_ "part.0.parquet"] /\
